@@ -1,6 +1,8 @@
 import MidnightZK.Model.Common
 import MidnightZK.Model.C07.Poseidon
 import MidnightZK.Gen.C07Poseidon
+import MidnightZK.Model.C07.Sha2
+import MidnightZK.Gen.C07Sha
 /-! Line-protocol handler of property C07. -/
 namespace MidnightZK.C07.Driver
 open MidnightZK MidnightZK.C07
@@ -76,8 +78,47 @@ def traceRows (st : List Fq) : List String := Id.run do
     s := fullRoundCpu P r s
   return rows ++ [s!"O:{fmtFq s}"]
 
+/-- Bytes from a hex string without prefix (`-` = empty). -/
+def parseBytes? (s : String) : Option (List Nat) :=
+  if s = "-" then some [] else
+  let cs := s.toList
+  if cs.length % 2 ≠ 0 then none else
+  let rec go : Nat → List Char → Option (List Nat)
+    | 0, _ => some []
+    | _ + 1, [] => some []
+    | _ + 1, [_] => none
+    | f + 1, a :: b :: t => do
+      let v ← parseHex? (String.ofList [a, b])
+      let r ← go f t
+      pure (v :: r)
+  go cs.length cs
+
+def fmtBytes (l : List Nat) : String :=
+  if l.isEmpty then "-" else String.ofList (l.flatMap (fun b => [hexDigit (b / 16), hexDigit (b % 16)]))
+
+def sha256 : Sha2 := sha256P Gen.sha256K Gen.sha256IV
+def sha512 : Sha2 := sha512P Gen.sha512K Gen.sha512IV
+def rmd160 : Rmd :=
+  { k := Gen.rmdK, k' := Gen.rmdKPrime, iv := Gen.rmdIV, r := Gen.rmdR, r' := Gen.rmdRPrime,
+    s := Gen.rmdS, s' := Gen.rmdSPrime }
+
 def answer (line : String) : String :=
   match words line with
+  | ["sha256", m] => match parseBytes? m with
+    | some b => fmtBytes (sha256.digest b)
+    | none => "bad-op"
+  | ["sha512", m] => match parseBytes? m with
+    | some b => fmtBytes (sha512.digest b)
+    | none => "bad-op"
+  | ["rmd160", m] => match parseBytes? m with
+    | some b => fmtBytes (rmd160.digest b)
+    | none => "bad-op"
+  | ["pad256", m] => match parseBytes? m with
+    | some b => fmtBytes (sha256.padRust b)
+    | none => "bad-op"
+  | ["pad512", m] => match parseBytes? m with
+    | some b => fmtBytes (sha512.padRust b)
+    | none => "bad-op"
   | ["perm", side, st] =>
     match permOf side, parseNatList? st with
     | some f, some st => fmtFq (f (fqList st))
